@@ -288,10 +288,19 @@ def run(ck):
              "malformed Transport headers: tcp/udp/multicast x play/record, existing/missing/non-multicastable paths, 9 SDP "
              "bodies incl. unparsable ones), 25% as ws-rtsp, against 0-4 pre-published streams (published by real RECORD "
              "sessions or media.Regist); (b) every sequence of length <= 3 (thorough: 4) over a 12-letter alphabet; "
-             "(c) the model's ParseTransport and SDP table against the real functions. non-trivial = >=3 requests with a SETUP and a PLAY or RECORD",
+             "(c) the model's ParseTransport and SDP table against the real functions; (d) WSP (stream wsp-sessions): random WSP message "
+             "sequences of length 1..12 (thorough 1..16) on a websocket control channel of the production HTTP handler — INIT (sometimes missing, "
+             "doubled or preceded by GET_INFO), WRAP carrying the DESCRIBE/SETUP/PLAY/PAUSE/PLAY flow with deviations at every position (all methods "
+             "incl. RECORD/ANNOUNCE/GET_PARAMETER/unknown, valid and malformed transports, tcp/udp/multicast/record, wrong controls and paths), "
+             "SWITCH, JOIN on the control channel, data-channel JOIN with the own or a foreign channel id at a random position or never, TEARDOWN; "
+             "plus every sequence of length <= 3 (thorough: 4) over 9 letters after INIT and over 7 letters after INIT, JOIN, DESCRIBE, SETUP. "
+             "non-trivial = >=3 requests with a SETUP and a PLAY or RECORD (WSP: >=4 messages with a wrapped SETUP and PLAY)",
         trusted=["the SDP parser and url.Parse are oracles: the model's SDP table (9 texts) is compared with parseSdp+getControlPath every run",
                  "net/url round trip of generated request URIs (checked by the harness per request)",
-                 "a sentinel OPTIONS after every request delimits that request's responses; OPTIONS is state-free in the model (theorem) and in onPreprocess"],
+                 "a sentinel OPTIONS after every request delimits that request's responses; OPTIONS is state-free in the model (theorem) and in onPreprocess",
+                 "WSP: gorilla websocket client, net/http upgrade and httptest server; before INIT (no state-free request exists) and on data channels "
+                 "(one request only) a missing answer is seen by a bounded wait; 'no media' while a consumer is attached is a 15 ms silence after "
+                 "publishing a packet (everything else is delimited by answers)"],
         assumptions=["authentication off (config default)", "ASCII Transport headers without leading/trailing blanks",
                      "requests are syntactically well-formed RTSP (malformed framing is outside this property)",
                      "net.ListenUDP succeeds when a UDP PLAY starts"])
